@@ -92,22 +92,27 @@ end
 
 // returns the fingerprint text, the number of functions whose environment is not this state's
 // globals, and the number of entries
-const libInspect = libWalker + `
+const libInspect = libWalker + libPhases + `
 local lines, foreign = {}, 0
-walk(function(t, path, keys)
-  for _, k in ipairs(keys) do
-    local v = rawget(t, k)
-    local d = type(v)
-    if d == "function" then
-      local i = dgetinfo(v, "S")
-      d = d .. ":" .. tostring(i and i.what)
-      if not rawequal(getfenv(v), G) then foreign = foreign + 1; d = d .. ":foreign-env" end
-    elseif d == "number" or d == "string" or d == "boolean" then
-      d = d .. "=" .. tostring(v)
+local function look(phase)
+  walk(function(t, path, keys)
+    for _, k in ipairs(keys) do
+      local v = rawget(t, k)
+      local d = type(v)
+      if d == "function" then
+        local i = dgetinfo(v, "S")
+        d = d .. ":" .. tostring(i and i.what)
+        if not rawequal(getfenv(v), G) then foreign = foreign + 1; d = d .. ":foreign-env" end
+      elseif d == "number" or d == "string" or d == "boolean" then
+        d = d .. "=" .. tostring(v)
+      elseif d == "userdata" then
+        d = d .. (dgetmt(v) == nil and ":no-mt" or ":mt")
+      end
+      lines[#lines + 1] = phase .. " " .. path .. "." .. tostring(k) .. " : " .. d
     end
-    lines[#lines + 1] = path .. "." .. tostring(k) .. " : " .. d
-  end
-end)
+  end)
+end
+phases(look)
 -- the library still works and its methods are the built-in ones
 local okm = ch.send ~= nil and dgetinfo(ch.send, "S").what == "Go" and dgetinfo(("").rep, "S").what == "Go"
 ch:send(7)
@@ -116,24 +121,56 @@ lines[#lines + 1] = "use : " .. tostring(okm) .. " " .. tostring(ok) .. " " .. t
 return concat(lines, "\n"), foreign, #lines
 `
 
+// Objects that exist only while a library calls back into Lua are looked at from there: the
+// body runs at top level, inside a package.preload loader (package.loaded[name] then holds
+// require's loop-detection sentinel), inside a string.gsub replacement function and inside a
+// table.sort comparator.
+const libPhases = `
+local function phases(body)
+  body("top")
+  package.preload["verif_probe_mod"] = function(name) body("loader") return true end
+  require("verif_probe_mod")
+  package.loaded["verif_probe_mod"] = nil
+  package.preload["verif_probe_mod"] = nil
+  local once = true
+  string.gsub("x", ".", function(c) if once then once = false; body("gsub") end end)
+  once = true
+  table.sort({2, 1}, function(a, b) if once then once = false; body("sort") end return a < b end)
+end
+`
+
 // adds a field to every reachable table and replaces the first function-valued entry of each by a
 // (behaviour preserving) Lua closure of this state; returns the number of tables changed
-const libMutate = libWalker + `
-local tables = {}
-walk(function(t, path, keys) tables[#tables + 1] = {t, keys} end)
+const libMutate = libWalker + libPhases + `
 local n = 0
-for _, e in ipairs(tables) do
-  local t, keys = e[1], e[2]
-  rawset(t, "zz_verif_" .. TAG, function() return TAG end)
-  for _, k in ipairs(keys) do
-    local orig = rawget(t, k)
-    if type(orig) == "function" then
-      rawset(t, k, function(...) return orig(...) end)
-      break
+local function change(phase)
+  local tables, uds = {}, {}
+  walk(function(t, path, keys)
+    tables[#tables + 1] = {t, keys}
+    for _, k in ipairs(keys) do
+      local v = rawget(t, k)
+      if type(v) == "userdata" and dgetmt(v) == nil then uds[#uds + 1] = v end
     end
+  end)
+  for _, e in ipairs(tables) do
+    local t, keys = e[1], e[2]
+    rawset(t, "zz_verif_" .. TAG .. phase, function() return TAG end)
+    for _, k in ipairs(keys) do
+      local orig = rawget(t, k)
+      if type(orig) == "function" then
+        rawset(t, k, function(...) return orig(...) end)
+        break
+      end
+    end
+    n = n + 1
   end
-  n = n + 1
+  -- a userdata without a metatable gets one (the only way to change it from Lua)
+  for _, u in ipairs(uds) do
+    debug.setmetatable(u, {__index = function(t, k) return TAG .. ":" .. tostring(k) end})
+    n = n + 1
+  end
 end
+phases(change)
 -- the way a script would extend the channel library
 dgetmt(ch).__index["myop_" .. TAG] = function(c, x) c:send(x); return TAG end
 channel["helper_" .. TAG] = function() return TAG end
